@@ -36,6 +36,12 @@ def _filters(fn, loop, keyvar):
 
 def rules(ctx):
     P, R = ctx.prog, ctx.res
+    from .C14 import no_module_state
+    ctx.rule('R18.7', "no function writes module-level state (memo / registry): results independent of earlier calls", floor=1)
+    no_module_state(ctx, 'R18.7')
+    ctx.rule('R18.8', "squash_key sorts labels with ordering_key on every path: subgraph / subvalue look partial keys up by their canonical form", floor=2)
+    from .C05 import canonical_order
+    canonical_order(ctx, 'R18.8')
     E = Effects(P, R)
     E.build()
     ctx.rule('R18.1', "results are created by type(arg)(); methods delegate with self", floor=5)
